@@ -247,8 +247,8 @@ impl EncodingVersion for EncodingVersion1 {
         member: &DynamicTypeMember,
         dynamic_data: &mut DynamicData,
     ) -> XTypesResult<()> {
-        let length = deserializer.deserialize_primitive_type::<u32>()?;
-        deserializer.deserialize_sequence_elements(member, dynamic_data, length as usize)
+        let length = deserializer.deserialize_sequence_length()?;
+        deserializer.deserialize_sequence_elements(member, dynamic_data, length)
     }
 
     /// Optional member of final Aggregated type (structure, union), version 1
@@ -452,8 +452,8 @@ impl EncodingVersion for EncodingVersion2 {
         dynamic_data: &mut DynamicData,
     ) -> XTypesResult<()> {
         let _dheader = deserializer.deserialize_primitive_type::<u32>()?;
-        let length = deserializer.deserialize_primitive_type::<u32>()?;
-        deserializer.deserialize_sequence_elements(member, dynamic_data, length as usize)
+        let length = deserializer.deserialize_sequence_length()?;
+        deserializer.deserialize_sequence_elements(member, dynamic_data, length)
     }
 
     /// Optional member of final aggregated type (structure, union), version 2
@@ -949,6 +949,18 @@ impl<'a, E: EndiannessRead, V: EncodingVersion> XTypesDeserializer<'a, E, V> {
             self.deserialize_nopt_fmember(member, dynamic_data)
         }
     }
+    /// Serialization rule: { O.length : UInt32 } of a sequence.
+    /// Every element of a sequence occupies at least one byte of the stream, so a length larger than the
+    /// number of remaining bytes cannot belong to a well-formed stream. Rejecting it here keeps the memory
+    /// reserved for the elements proportional to the size of the input.
+    fn deserialize_sequence_length(&mut self) -> XTypesResult<usize> {
+        let length = self.deserialize_primitive_type::<u32>()? as usize;
+        if length > self.reader.remaining() {
+            return Err(XTypesError::NotEnoughData);
+        }
+        Ok(length)
+    }
+
     /// (2) XCDR << {O : PRIMITIVE_TYPE} =
     ///              XCDR
     ///                << ALIGN( O.ssize )
@@ -978,6 +990,9 @@ impl<'a, E: EndiannessRead, V: EncodingVersion> XTypesDeserializer<'a, E, V> {
             return Ok(String::new());
         }
         let num_units = length.saturating_sub(1) as usize;
+        if num_units > self.reader.remaining() / 2 {
+            return Err(XTypesError::NotEnoughData);
+        }
         let mut units = Vec::with_capacity(num_units);
         for _ in 0..num_units {
             let unit = self.deserialize_primitive_type::<u16>()?;
@@ -1083,8 +1098,8 @@ impl<'a, E: EndiannessRead, V: EncodingVersion> XTypesDeserializer<'a, E, V> {
         member: &DynamicTypeMember,
         dynamic_data: &mut DynamicData,
     ) -> XTypesResult<()> {
-        let length = self.deserialize_primitive_type::<u32>()?;
-        self.deserialize_sequence_elements(member, dynamic_data, length as usize)
+        let length = self.deserialize_sequence_length()?;
+        self.deserialize_sequence_elements(member, dynamic_data, length)
     }
 
     /// Serialization Rule (14)
@@ -1320,6 +1335,10 @@ impl<'a> Reader<'a> {
     fn seek_padding(&mut self, alignment: usize) -> XTypesResult<()> {
         let mask = alignment - 1;
         self.seek(((self.pos + mask) & !mask) - self.pos)
+    }
+
+    fn remaining(&self) -> usize {
+        self.buffer.len().saturating_sub(self.pos)
     }
 }
 
